@@ -5,6 +5,7 @@ package sim
 import (
 	"bytes"
 	"fmt"
+	"strconv"
 	"strings"
 	"time"
 
@@ -120,6 +121,27 @@ func judgeParse(api ParserAPI, kind string, input []byte, valid bool) *Violation
 		}
 		if o.size != uint64(len(input)) {
 			return &Violation{"C16/commit-size", fmt.Sprintf("size %d, object has %d bytes", o.size, len(input))}
+		}
+	case "reference", "batch-header":
+		// "<oid> <type> <size>[ <refname>]": the first three blanks separate
+		// the columns, everything after the third belongs to the name
+		f := strings.SplitN(strings.TrimSuffix(string(input), "\n"), " ", 4)
+		if len(f) < 3 {
+			return nil
+		}
+		wantSize, err := strconv.ParseUint(f[2], 10, 64)
+		if err != nil {
+			return nil
+		}
+		if kind == "reference" {
+			if len(f) != 4 {
+				return nil
+			}
+			if o.a != f[3] || o.b != f[1] || len(o.list) != 1 || o.list[0] != f[0] || o.size != wantSize {
+				return &Violation{"C16/reference-line", fmt.Sprintf("line %q parsed as (%q %q %v %d)", input, o.a, o.b, o.list, o.size)}
+			}
+		} else if o.a != f[0] || o.b != f[1] || o.size != wantSize {
+			return &Violation{"C16/batch-header-line", fmt.Sprintf("line %q parsed as (%q %q %d)", input, o.a, o.b, o.size)}
 		}
 	case "tag":
 		ti := DecodeTag(input)
@@ -407,30 +429,20 @@ func checkC16(c *Ctx, rt *rapid.T) {
 		o := w.Get(r.OID)
 		line := fmt.Sprintf("%s %s %d %s", o.ID, o.Kind, o.Size(), r.Name)
 		calls++
-		po := callParser(c.H.Parsers, "reference", []byte(line))
-		if po.panic != "" || po.timeout {
-			fail("reference", []byte(line), true, &Violation{"C16/parser-panic", po.panic})
-			return
-		}
-		if po.err != nil || po.a != r.Name || po.b != o.Kind || po.list[0] != o.ID || po.size != min(o.Size(), o.Size()) {
-			fail("reference", []byte(line), true, &Violation{"C16/reference-line", fmt.Sprintf("line %q parsed as (%q %q %v %d, err %v)", line, po.a, po.b, po.list, po.size, po.err)})
+		if v := judgeParse(c.H.Parsers, "reference", []byte(line), true); v != nil {
+			fail("reference", []byte(line), true, v)
 			return
 		}
 	}
 	for _, o := range w.Objects {
 		line := fmt.Sprintf("%s %s %d\n", o.ID, o.Kind, o.Size())
 		calls++
-		po := callParser(c.H.Parsers, "batch-header", []byte(line))
-		if po.panic != "" || po.timeout {
-			fail("batch-header", []byte(line), true, &Violation{"C16/parser-panic", po.panic})
-			return
-		}
-		if po.err != nil || po.a != o.ID || po.b != o.Kind || po.size != o.Size() {
-			fail("batch-header", []byte(line), true, &Violation{"C16/batch-header-line", fmt.Sprintf("line %q parsed as (%q %q %d, err %v)", line, po.a, po.b, po.size, po.err)})
+		if v := judgeParse(c.H.Parsers, "batch-header", []byte(line), true); v != nil {
+			fail("batch-header", []byte(line), true, v)
 			return
 		}
 		miss := o.ID + " missing\n"
-		po = callParser(c.H.Parsers, "batch-header", []byte(miss))
+		po := callParser(c.H.Parsers, "batch-header", []byte(miss))
 		if po.panic != "" || po.err == nil {
 			fail("batch-header", []byte(miss), false, &Violation{"C16/missing-line-accepted", fmt.Sprintf("%q: err=%v panic=%q", miss, po.err, po.panic)})
 			return
